@@ -419,11 +419,15 @@ class CategoricalData:
         Parameters
         ----------
         event : int
-            Dump of event to add or override
+            Dump of event to add or override (0 <= event < number of dumps)
         value : object, optional
             New value for event (duplicate current value at this dump by default)
 
         """
+        # An event is a dump: reject anything else before any state is touched (the one-past-last "event"
+        # at the end of `events` is only a placeholder for the number of dumps and cannot be overridden)
+        if event < 0 or event >= self.events[-1]:
+            raise IndexError('Event dump %s is outside dump range: 0 <= event < %d' % (event, self.events[-1]))
         # If value has not been seen before, add it to unique_values (and create new index for it)
         if value is not None:
             try:
